@@ -58,14 +58,15 @@ func (e *Env) DefineGlobalReflectType(symbol string, reflectType reflect.Type) e
 func (e *Env) Type(symbol string) (reflect.Type, error) {
 	e.rwMutex.RLock()
 	reflectType, ok := e.types[symbol]
+	externalLookup := e.externalLookup
 	e.rwMutex.RUnlock()
 	if ok {
 		return reflectType, nil
 	}
 
-	if e.externalLookup != nil {
+	if externalLookup != nil {
 		var err error
-		reflectType, err = e.externalLookup.Type(symbol)
+		reflectType, err = externalLookup.Type(symbol)
 		if err == nil {
 			return reflectType, nil
 		}
